@@ -185,6 +185,17 @@ def c1_arith(fb, rep):
         later = ct.path_avoiding((b, i), lambda ev, _f=fld: ev is not None and ev.get('k') == 'asg' and ap(ev.get('l')) == 'this.' + _f, R.never)
         rep.ob(clause, 'K15 provenance', 'clock path: no later write to %s follows the clamp' % fld, later is None, R.site(ct, e), '', ct.sname)
     bound_tree = next((n_ for n_ in walk(finals['minTimeLimit'][3]['args'][2]) if n_.get('k') == 'bin' and is_budget(n_)), _strip(finals['minTimeLimit'][3]['args'][2]))
+    # the margin that reaches the clamps is, on every path, the one computed from the mover's own clock
+    from .. import bbalg as B_
+    for fld in ('minTimeLimit', 'maxTimeLimit'):
+        b_, i_, e_, r_ = finals[fld]
+        try:
+            stores = B_.sym_stores(ct, (b_, i_), {rid['margin']})
+            vals = {show(st.get(rid['margin']), 400) if rid['margin'] in st else '?' for st, _ in stores}
+        except B_.Unsupported as ex:
+            vals = {'? (%s)' % ex}
+        rep.ob(clause, 'K15 provenance', 'clock path: the safety margin in the final clamp of %s is the one computed from the mover\'s clock on every path' % fld,
+               vals == {show(margin, 400)}, R.site(ct, e_), 'margin values reaching the clamp: %s' % sorted(vals), ct.sname)
 
     def subst(t):
         if isinstance(t, dict) and t.get('k') == 'var' and t.get('id') == rid['margin']:
